@@ -1,14 +1,12 @@
 #!/bin/bash
-# re-applies every stored seeded change to /repo, runs the quick check of the property it breaks, reverts.
-# usage: tools/regress_mutants.sh [id-prefix]
+# re-applies every stored seeded change to the repository (KODA_REPO, default /repo), runs the quick check of the
+# property it breaks, reverts.   usage: tools/regress_mutants.sh [id-prefix]
 cd "$(dirname "$0")/.."
+R="${KODA_REPO:-/repo}"
 for d in seeded/${1}*/; do
   id=$(basename $d)
   prop=$(python3 -c "import json;print(json.load(open('$d/meta.json'))['breaks_property'])")
-  if ! git -C /repo apply --check "$PWD/$d/patch.diff" 2>/dev/null; then echo "$id $prop PATCH-DOES-NOT-APPLY"; continue; fi
-  git -C /repo apply "$PWD/$d/patch.diff"
-  out=$(./check $prop 2>&1); rc=$?
-  git -C /repo checkout -- .
-  echo "$id $prop rc=$rc $(echo "$out" | grep -v KNOWN | head -1)"
+  if ! git -C "$R" apply --check "$PWD/$d/patch.diff" 2>/dev/null; then echo "$id $prop PATCH-DOES-NOT-APPLY"; continue; fi
+  echo "$id $(tools/try_mutant.sh "$PWD/$d/patch.diff" $prop | head -1)"
 done
-git -C /repo status --short | head -3
+git -C "$R" status --short | head -3
